@@ -276,7 +276,8 @@ pub uninterp spec fn ci_seq<'a>(it: &std::str::CharIndices<'a>) -> Seq<(usize, c
 pub assume_specification<'a> [str::char_indices] (s: &'a str) -> (r: std::str::CharIndices<'a>)
     ensures ci_seq(&r).len() == s@.len(), forall|k: int| 0 <= k < s@.len() ==> (#[trigger] ci_seq(&r)[k]).1 == s@[k],
             s@.len() > 0 ==> ci_seq(&r)[0].0 == 0,
-            forall|k: int| 1 <= k < s@.len() ==> (#[trigger] ci_seq(&r)[k]).0 > 0;
+            forall|k: int| 1 <= k < s@.len() ==> (#[trigger] ci_seq(&r)[k]).0 > 0,
+            forall|k: int| 0 <= k < s@.len() && (forall|j: int| 0 <= j < k ==> (s@[j] as u32) < 128) ==> (#[trigger] ci_seq(&r)[k]).0 == k;
 /// N10 wrapper for the provided method `Iterator::find` on CharIndices: first pair the predicate accepts
 #[verifier::external_body]
 pub fn vx_ci_find<'a, P: FnMut(&(usize, char)) -> bool>(it: std::str::CharIndices<'a>, p: P) -> (r: Option<(usize, char)>)
@@ -326,4 +327,26 @@ pub fn vx_str_split_once_char<'a>(s: &'a str, c: char) -> (r: Option<(&'a str, &
 pub uninterp spec fn dur_zero() -> std::time::Duration;
 #[verifier::external_body]
 pub fn vx_duration_zero() -> (r: std::time::Duration) ensures r == dur_zero() { std::time::Duration::ZERO }
+
+// ---- ASCII case-insensitive comparison (str::eq_ignore_ascii_case)
+pub open spec fn ascii_lower(c: char) -> char { if 'A' <= c && c <= 'Z' { ((c as u8) + 32) as char } else { c } }
+pub open spec fn eq_ic(a: Seq<char>, b: Seq<char>) -> bool { a.len() == b.len() && forall|i: int| 0 <= i < a.len() ==> ascii_lower(#[trigger] a[i]) == ascii_lower(b[i]) }
+pub assume_specification [str::eq_ignore_ascii_case] (a: &str, b: &str) -> (r: bool) ensures r == eq_ic(a@, b@);
+/// N10 wrappers for comparisons / hashing / printing through `Cow<str>` and `Box<str>` (generic std impls)
+#[verifier::external_body]
+pub fn vx_cow_eq(a: &Cow<'_, str>, b: &Cow<'_, str>) -> (r: bool) ensures r == (cow_view(*a) == cow_view(*b)) { a == b }
+#[verifier::external_body]
+pub fn vx_cow_eq_str(a: &Cow<'_, str>, b: &str) -> (r: bool) ensures r == (cow_view(*a) == b@) { a == b }
+/// the total order of `str` (byte-wise lexicographic); uninterpreted here
+pub uninterp spec fn str_cmp(a: Seq<char>, b: Seq<char>) -> core::cmp::Ordering;
+#[verifier::external_body]
+pub fn vx_cow_cmp(a: &Cow<'_, str>, b: &Cow<'_, str>) -> (r: core::cmp::Ordering) ensures r == str_cmp(cow_view(*a), cow_view(*b)) { a.cmp(b) }
+/// feeding a str to a hasher: the new hasher state is a function of the old state and the text
+pub uninterp spec fn hash_str<H>(h: H, s: Seq<char>) -> H;
+#[verifier::external_body]
+pub fn vx_cow_hash<H: core::hash::Hasher>(a: &Cow<'_, str>, state: &mut H) ensures *final(state) == hash_str(*old(state), cow_view(*a)) { core::hash::Hash::hash(a, state) }
+#[verifier::external_body]
+pub fn vx_str_hash<H: core::hash::Hasher>(a: &str, state: &mut H) ensures *final(state) == hash_str(*old(state), a@) { core::hash::Hash::hash(a, state) }
+#[verifier::external_body]
+pub fn vx_box_str_to_string(b: &Box<str>) -> (r: String) ensures r@ == box_str_view(*b) { b.to_string() }
 }
